@@ -554,6 +554,7 @@ class Interp:
         self.gen_stack = []          # generator objects whose body is currently executing (innermost last)
         self.nonneg_keys = set()     # keys of polynomials known to be sums of squares by construction (x . x)
         self.len_objs = []           # the objects returned by len(<collection>) (identity matters: `n = len(xs); if n > 100`)
+        self.taint = {}              # id(Poly) -> (kind, object): "len" = a collection size, "counter" = a range() loop counter
         self.live_generators = []
         self.ph_of = {}          # poly key -> placeholder token
         self.ph_val = {}         # placeholder token -> Poly
@@ -1894,13 +1895,17 @@ class Interp:
         if isinstance(r, Wrapped):
             r = self.unwrap(r, node)
         if isinstance(l, Poly) and isinstance(r, Poly):
-            if isinstance(op, (ast.Lt, ast.LtE, ast.Gt, ast.GtE)):
-                for a_, b_ in ((l, r), (r, l)):
-                    c_ = b_.const_value()
-                    if any(a_ is x_ for x_ in self.len_objs) and not any(b_ is x_ for x_ in self.len_objs) and c_ is not None and c_ >= 3:
-                        # an ordering test of a collection size against a constant: what the code does may differ for larger
-                        # inputs than any finite scenario contains
-                        self.events.append(("size-threshold", "%s compared with %s at %s" % ("len(...)", c_, self.where(node))))
+            for a_, b_ in ((l, r), (r, l)):
+                ta, tb = self.taint.get(id(a_)), self.taint.get(id(b_))
+                c_ = b_.const_value()
+                if ta is None or tb is not None or c_ is None:
+                    continue
+                # a collection size / an iteration counter tested against a constant: what the code does may differ for larger
+                # inputs / later iterations than any finite scenario contains
+                if ta[0] == "len" and isinstance(op, (ast.Lt, ast.LtE, ast.Gt, ast.GtE)) and c_ >= 3:
+                    self.events.append(("size-threshold", "%s compared with %s at %s" % ("len(...)", c_, self.where(node))))
+                elif ta[0] in ("counter", "counter-derived") and (c_ >= 2 or ta[0] == "counter-derived") and not (ta[0] == "counter" and c_ <= 1):
+                    self.events.append(("size-threshold", "an iteration counter compared with %s at %s" % (c_, self.where(node))))
             d = l - r
             return self.decide_sign(d, SIGNS_OF[type(op)], "%s %s 0" % (d.short(80), OPNAME[type(op)]))
         if (isinstance(l, Quot) or isinstance(r, Quot)) and isinstance(l, (Quot, Poly)) and isinstance(r, (Quot, Poly)) and type(op) in SIGNS_OF:
@@ -2116,6 +2121,25 @@ class Interp:
             return self.quot_arith(op, a, b, node)
         if not isinstance(a, Poly) or not isinstance(b, Poly):
             raise self.unsupported("arithmetic on %r and %r" % (a, b), node)
+        ta_, tb_ = self.taint.get(id(a)), self.taint.get(id(b))
+        if (ta_ or tb_) and op in (ast.Add, ast.Sub, ast.Mult, ast.Mod, ast.FloorDiv):
+            r = self._arith_plain(op, a, b, node)
+            if isinstance(r, Poly):
+                kind = (ta_ or tb_)[0]
+                if op in (ast.Mod, ast.FloorDiv):
+                    other = b if ta_ else a
+                    oc = other.const_value()
+                    if oc is not None and oc >= 2:
+                        # len(xs) % 128, (i + 1) % 10, len(xs) // 8192: chunking / periodic behaviour
+                        self.events.append(("size-threshold", "%s taken modulo / divided by %s at %s" % (
+                            "a collection size" if kind == "len" else "an iteration counter", oc, self.where(node))))
+                    kind = "counter-derived" if kind.startswith("counter") else kind
+                r = Poly(dict(r.t))         # a private object, so that the taint does not leak to shared constants
+                self.taint[id(r)] = (kind, r)
+            return r
+        return self._arith_plain(op, a, b, node)
+
+    def _arith_plain(self, op, a, b, node):
         if op is ast.Add:
             r = a + b
             if self.is_nonneg_by_construction(a) and self.is_nonneg_by_construction(b):
@@ -2156,6 +2180,9 @@ class Interp:
                 return Poly.const(Fraction(a.const_value()) % Fraction(b.const_value()))
             return Wrapped(a, b, Poly())
         if op is ast.FloorDiv:
+            ca, cb = a.const_value(), b.const_value()
+            if ca is not None and cb is not None and int(ca) == ca and int(cb) == cb and cb != 0:
+                return Poly.const(int(ca) // int(cb))       # integer bookkeeping (sizes, indices) is exact
             raise LossyOperation("floor division", self.where(node))
         raise self.unsupported("operator %s" % op.__name__, node)
 
@@ -3328,6 +3355,7 @@ class Interp:
                 r_ = Poly.const(len(v))
                 if isinstance(v, (list, tuple, dict)):
                     self.len_objs.append(r_)   # the size of a collection (see `cmp`: size thresholds are recorded)
+                    self.taint[id(r_)] = ("len", r_)
                 return r_
             if v is None:
                 raise PathRaise("TypeError(len(None))", self.where(n))
@@ -3354,7 +3382,11 @@ class Interp:
             raise self.unsupported("len of %r" % (v,), n)
         if name == "range":
             iv = [self.intval(a, n) for a in args]
-            return [Poly.const(i) for i in range(*iv)]
+            out_ = [Poly.const(i) for i in range(*iv)]
+            if len(args) == 1 or any(id(a) in self.taint for a in args):
+                for x_ in out_:
+                    self.taint[id(x_)] = ("counter", x_)      # a loop counter: behaviour keyed on it is recorded (see `cmp`)
+            return out_
         if name == "zip":
             if kw.get("strict") is True and len({len(self.iterate(a, n)) for a in args}) > 1:
                 raise PathRaise("ValueError(zip() arguments have different lengths)", self.where(n))
